@@ -75,8 +75,9 @@ func parseScenario(in string) (*scenario, error) {
 	if err != nil {
 		return nil, err
 	}
-	if n.Len() >= 1 && !n.At(0).IsList && n.At(0).Str() == "fixed" {
-		// `(fixed (wf …) …)`: the Lean driver evaluates the model with the repairs on (used against a patched /repo)
+	if n.Len() >= 1 && !n.At(0).IsList && n.At(0).Str() == "legacy" {
+		// `(legacy (wf …) …)`: the Lean driver evaluates the model of the code as it was before the three repairs
+		// (by hand, against a tree without them); the generators never produce it
 		n = sx.L(n.List[1:]...)
 	}
 	if n.Len() < 1 || n.At(0).Len() < 2 || n.At(0).At(0).Str() != "wf" {
